@@ -969,16 +969,24 @@ def r4_aliases(program, rep):
                    "sort of the caller's table by generality: entries of "
                    "equal generality may change places and a later entry "
                    "can take keys from an earlier one")
-    # aliases are copied, never shared: neither apply() nor
-    # ordered_covering() (whose default is a shared dict) mutates the
-    # dictionary it is given
+    r4_aliases_effects(program, rep)
+
+
+def r4_aliases_effects(program, rep):
+    """Aliases are copied, never shared: neither apply() nor
+    ordered_covering() (whose default is a shared dict) changes the
+    dictionary it is given - nor one of the sets kept in it (a set popped
+    from a shallow copy of the dictionary is still the caller's set)."""
+    if getattr(rep, "_r4_aliases_done", False):
+        return
+    rep._r4_aliases_done = True
     from ..effects import Effects
     eff = Effects(program)
     for spec in (OC + ":_Merge.apply", OC + ":ordered_covering"):
         f = program.get(spec)
         evs = eff.analyse(f)
         hits = [e for e in evs if e.kind == "mutate" and any(
-            o[0] == "P" and o[1] == "aliases" and o[2] <= 1
+            o[0] == "P" and o[1] == "aliases" and o[2] <= 2
             for o in e.origins)]
         rep.check(not hits, "C04-R4", qual(f), "the aliases dictionary "
                   "passed in is copied before it is updated (alias records "
@@ -988,7 +996,8 @@ def r4_aliases(program, rep):
                   fail="%s updates the aliases dictionary it was given (%s): "
                        "alias records survive into later minimisations "
                        "through the shared default argument" % (
-                           f.name, hits[0].text if hits else ""))
+                           f.name, hits[0].text if hits else ""),
+                  positive=True)
     # members of a merge share one route
     gm = program.get(OC + ":_get_all_merges")
     G_ = Terms(gm)
@@ -1887,6 +1896,7 @@ def check(program, rep):
     rep.guard("C04-R3", r3_upcheck_range, program, rep)
     rep.guard("C04-R3", r3_ranges, program, rep)
     rep.guard("C04-R3", r3_upcheck_all_members, program, rep)
+    rep.guard("C04-R4", r4_aliases_effects, program, rep)
     rep.guard("C04-R4", r4_aliases, program, rep)
     rep.guard("C04-R5", r5_contract, program, rep)
     rep.guard("C04-R6", r6_empty, program, rep)
